@@ -120,8 +120,12 @@ impl<'a> Eval<'a> {
         Some(match kind {
             Kind::Var(v) => self.env[*v],
             Kind::Const(c) => *c,
-            Kind::Map(f, a) | Kind::MapCyclic(f, a) | Kind::Enumerate(f, a) | Kind::Writer(f, a, _) => {
+            Kind::Map(f, a) | Kind::MapCyclic(f, a) | Kind::Enumerate(f, a) | Kind::Writer(f, a, _) | Kind::MapHold(f, a, _) => {
                 Val::I(f.ap(self.int(*a)?))
+            }
+            Kind::MapWithOldPair(f, a, _) => {
+                let x = self.int(*a)?;
+                Val::P(x, f.ap(x))
             }
             Kind::MapWithOld(f, a, _) => Val::I(f.ap(self.int(*a)?)),
             Kind::Map2(f, a, b) => Val::I(f.ap(self.int(*a)?, self.int(*b)?)),
@@ -210,6 +214,9 @@ pub enum ConeMode {
     Union,
     /// like Start, but nested binds contribute nothing: a subset of what was necessary before
     StartUnder,
+    /// nodes that are necessary throughout the coming round whatever the engine's order: reached
+    /// without passing through the right-hand side of a bind that re-runs in it
+    Stable,
 }
 
 pub struct Cone<'a, 'b> {
@@ -239,6 +246,14 @@ impl<'a, 'b> Cone<'a, 'b> {
                     if let Some(lv) = self.ev.node(*lhs).map(|v| v.i()) {
                         let ctx = TmCtx { lhs: vec![lv], shared: vec![None] };
                         self.visit_tm(&table[tidx(lv, table.len())].clone(), &ctx);
+                    }
+                }
+                if self.mode == ConeMode::Stable {
+                    if let (Some((_, lv)), Some(now)) = (m.bind_force.get(&NodeKey::Top(n)), self.ev.node(*lhs).map(|v| v.i())) {
+                        if *lv == now {
+                            let ctx = TmCtx { lhs: vec![*lv], shared: vec![None] };
+                            self.visit_tm(&table[tidx(*lv, table.len())].clone(), &ctx);
+                        }
                     }
                 }
                 if matches!(self.mode, ConeMode::Start | ConeMode::Union | ConeMode::StartUnder) {
@@ -297,7 +312,7 @@ impl<'a, 'b> Cone<'a, 'b> {
                             self.visit_tm(t, &inner);
                         }
                     }
-                    ConeMode::StartUnder => {}
+                    ConeMode::StartUnder | ConeMode::Stable => {}
                 }
             }
         }
